@@ -1,4 +1,5 @@
 import BronVerif.Lemmas.Sigma
+import BronVerif.Gen.SigmaLenChecks
 import Mathlib.Data.Set.Function
 import Mathlib.Data.ZMod.Basic
 import Mathlib.Algebra.Group.TypeTags.Basic
@@ -255,7 +256,66 @@ theorem or_complete (verify : X → A → Nat → Z → Bool) (l₁ l₂ : List 
     · exact hreal eb
     · exact hsim t (List.mem_append_right _ ht)
 
+/-- AND configured for `n` branches accepts exactly the `n`-component transcripts `andVerify` accepts -/
+theorem andVerifyN_iff (n : Nat) (verify : X → A → Nat → Z → Bool) (xs : List X) (as : List A) (e : Nat) (zs : List Z) :
+    andVerifyN n verify xs as e zs = true ↔
+      xs.length = n ∧ as.length = n ∧ zs.length = n ∧ andVerify verify xs as e zs = true := by
+  unfold andVerifyN andVerify
+  simp only [Bool.and_eq_true, beq_iff_eq]
+  constructor
+  · rintro ⟨h0, ⟨h1, h2⟩, h3⟩
+    exact ⟨h0, by omega, by omega, ⟨h1, h2⟩, h3⟩
+  · rintro ⟨h0, _, _, h3⟩
+    exact ⟨h0, h3⟩
+
+/-- a missing or an extra branch (in the statement, the commitment or the response) is rejected,
+whatever the transcript hash says -/
+theorem and_wrong_count_rejected (n : Nat) (verify : X → A → Nat → Z → Bool) (xs : List X) (as : List A) (e : Nat)
+    (zs : List Z) (h : xs.length ≠ n ∨ as.length ≠ n ∨ zs.length ≠ n) : andVerifyN n verify xs as e zs = false := by
+  rw [Bool.eq_false_iff]
+  intro hacc
+  obtain ⟨h0, h1, h2, _⟩ := (andVerifyN_iff n verify xs as e zs).1 hacc
+  rcases h with h | h | h <;> contradiction
+
+theorem orVerifyN_iff (n : Nat) (verify : X → A → Nat → Z → Bool) (xs : List X) (as : List A) (e : Nat)
+    (es : List Nat) (zs : List Z) :
+    orVerifyN n verify xs as e es zs = true ↔
+      xs.length = n ∧ as.length = n ∧ es.length = n ∧ zs.length = n ∧ orVerify verify xs as e es zs = true := by
+  unfold orVerifyN orVerify
+  simp only [Bool.and_eq_true, beq_iff_eq]
+  constructor
+  · rintro ⟨h0, ⟨⟨⟨h1, h2⟩, h3⟩, h4⟩, h5⟩
+    exact ⟨h0, by omega, by omega, by omega, ⟨⟨⟨h1, h2⟩, h3⟩, h4⟩, h5⟩
+  · rintro ⟨h0, _, _, _, h5⟩
+    exact ⟨h0, h5⟩
+
+/-- OR: a missing or an extra branch (statement, commitment, branch challenges or responses) is rejected -/
+theorem or_wrong_count_rejected (n : Nat) (verify : X → A → Nat → Z → Bool) (xs : List X) (as : List A) (e : Nat)
+    (es : List Nat) (zs : List Z) (h : xs.length ≠ n ∨ as.length ≠ n ∨ es.length ≠ n ∨ zs.length ≠ n) :
+    orVerifyN n verify xs as e es zs = false := by
+  rw [Bool.eq_false_iff]
+  intro hacc
+  obtain ⟨h0, h1, h2, h3, _⟩ := (orVerifyN_iff n verify xs as e es zs).1 hacc
+  rcases h with h | h | h | h <;> contradiction
+
+/-- OR: branch challenges that do not XOR to the challenge are rejected even if every branch
+verifies (an all-simulated proof with free branch challenges) -/
+theorem or_unsplit_challenge_rejected (n : Nat) (verify : X → A → Nat → Z → Bool) (xs : List X) (as : List A) (e : Nat)
+    (es : List Nat) (zs : List Z) (h : xorAll es ≠ e) : orVerifyN n verify xs as e es zs = false := by
+  rw [Bool.eq_false_iff]
+  intro hacc
+  have := ((orVerifyN_iff n verify xs as e es zs).1 hacc).2.2.2.2
+  unfold orVerify at this
+  simp only [Bool.and_eq_true, beq_iff_eq] at this
+  exact h this.1.2
+
 end compose
+
+/-- batch Schnorr configured for `k` statements rejects a statement with another number of them -/
+theorem batch_wrong_count_rejected {G : Type} [DecidableEq G] (k : Nat) (cod : Grp G) (g : G) (xs : List G) (a : G)
+    (e z : Nat) (h : xs.length ≠ k) : batchVerifyK k cod g xs a e z = false := by
+  unfold batchVerifyK
+  simp [h]
 
 /-! ### Fiat–Shamir -/
 
@@ -319,6 +379,21 @@ theorem fs_component_binding (chal : I → E) (S : Set I) (hH : Set.InjOn chal S
     simp only [fsVerify, Bool.and_eq_true, beq_iff_eq] at h'
     exact hne (huniq z' h'.2)
 
+/-- an accepted Fiat–Shamir proof carries the transcript hash as its challenge -/
+theorem fs_accepted_challenge_is_hash (chal : I → E) (frame : Hst → X → A → I) (verify : X → A → E → Z → Bool)
+    (h : Hst) (x : X) (a : A) (e : E) (z : Z) (hacc : fsVerify chal frame verify h x (a, e, z) = true) :
+    e = chal (frame h x a) := by
+  simp only [fsVerify, Bool.and_eq_true, beq_iff_eq] at hacc
+  exact hacc.1
+
+/-- a witness-free forgery from the simulator: the simulated transcript `(a, e, z)` (a valid sigma
+transcript for *every* statement) is accepted as a Fiat–Shamir proof iff its challenge happens to be
+the transcript hash of its own commitment — i.e. it is rejected unless the hash matches -/
+theorem fs_simulated_rejected_unless_hash_matches {H G Hst I : Type} [CommGroup G] [DecidableEq G] {P : Maurer H G}
+    (hP : P.Lawful) (chal : I → Nat) (frame : Hst → G → G → I) (h : Hst) (x : G) (e : Nat) (z : H) :
+    fsVerify chal frame P.verify h x (P.simulate x e z, e, z) = true ↔ e = chal (frame h x (P.simulate x e z)) := by
+  simp only [fsVerify, Bool.and_eq_true, beq_iff_eq, maurer_simulator_verifies hP, and_true]
+
 /-- full statement for a non-injective `φ` (Okamoto): a second accepted response would reveal a
 non-trivial kernel element of `φ`, which for Okamoto is a discrete-log relation between the
 generators; that no efficient prover can find one is a computational assumption, not mechanised -/
@@ -354,6 +429,28 @@ theorem fischlin_verify_structure (ρ : Nat) (common : Hst → X → List A → 
       (∀ t ∈ π, verify x t.1 t.2.1 t.2.2 = true) := by
   unfold fischlinVerify
   simp only [Bool.and_eq_true, beq_iff_eq, List.all_eq_true, and_assoc]
+
+/-- a proof whose number of repetitions differs from the specified `ρ` is rejected — whatever its
+hashes and sigma transcripts are (in particular if each repetition meets the target and verifies) -/
+theorem fischlin_short_proof_rejected (ρ : Nat) (common : Hst → X → List A → C)
+    (target : C → Nat → E → Z → Bool) (verify : X → A → E → Z → Bool) (h : Hst) (x : X) (π : List (A × E × Z))
+    (hlen : π.length ≠ ρ) : fischlinVerify ρ common target verify h x π = false := by
+  rw [Bool.eq_false_iff]
+  intro hacc
+  exact hlen ((fischlin_verify_structure ρ common target verify h x π).1 hacc).1
+
+/-- the forgery a verifier looping over the proof's own length would accept: a single (simulated)
+repetition meeting its own target is rejected as soon as `ρ ≠ 1` -/
+theorem fischlin_single_repetition_rejected (ρ : Nat) (hρ : ρ ≠ 1) (common : Hst → X → List A → C)
+    (target : C → Nat → E → Z → Bool) (verify : X → A → E → Z → Bool) (h : Hst) (x : X) (t : A × E × Z) :
+    fischlinVerify ρ common target verify h x [t] = false :=
+  fischlin_short_proof_rejected ρ common target verify h x [t] (by simpa using Ne.symm hρ)
+
+/-- the specified Fischlin parameters give `ρ · (b − ⌈log₂(ss−1)⌉) ≥ 128` bits and `t > b` -/
+theorem fischlinSpec_sound (nthroot : Bool) (ss : Nat) :
+    128 ≤ (fischlinSpec nthroot ss).1 * ((fischlinSpec nthroot ss).2.1 - ceilLog2 (ss - 1)) ∧
+      (fischlinSpec nthroot ss).2.1 < (fischlinSpec nthroot ss).2.2 ∧ 2 ≤ (fischlinSpec nthroot ss).1 := by
+  cases nthroot <;> simp [fischlinSpec] <;> omega
 
 /-- context binding for Fischlin: if the common value is an injective function of the framed context
 on the inputs that occur, and the (truncated) target hash is injective on the inputs that occur
@@ -416,6 +513,53 @@ theorem zk_refuses {K C E R Z : Type} (openC : K → C → E → R → Bool) (re
     (ck : K) (c : C) (e : E) (r : R) (h : openC ck c e r = false) : zkRound4 openC respond ck c e r = none := by
   simp [zkRound4, h]
 
+/-- the prover answers exactly when the opening is valid: a challenge opened to another value (for
+which the commitment does not open) gets no response -/
+theorem zk_answers_iff_opens {K C E R Z : Type} (openC : K → C → E → R → Bool) (respond : E → Z)
+    (ck : K) (c : C) (e : E) (r : R) : (zkRound4 openC respond ck c e r).isSome = openC ck c e r := by
+  unfold zkRound4
+  split <;> simp_all
+
+/-! ### Tie of the structural checks to the source
+
+`Gen/SigmaLenChecks.lean` is regenerated from /repo on every run (go/ast): every comparison of a
+`len(…)` in an `if` condition of the `Verify` methods of the count-prescribing verifiers, with the
+*role* of the other side.  The model verifiers above take the specified count as a parameter
+(`fischlinVerify ρ`, `andVerifyN n`, `orVerifyN n`, `batchVerifyK k`); this fact says that the Go
+verifiers compare each prescribed component with `!=` against configured state (a field of the
+verifier object, or a package constant) — not merely against the length of another component of
+the same proof. -/
+
+section source
+open BronVerif.Gen.SigmaLenChecks
+
+/-- the other side of the comparison is configured state: `recv.<field>` or `pkg.<Const>` -/
+def configured (o : Str) : Bool := o.take 5 == slc!"recv." || o.take 4 == slc!"pkg."
+
+/-- the table has a `len(what) != <configured state>` guard for `proto` -/
+def hasCountGuard (tbl : List Guard) (proto what : Str) : Bool :=
+  tbl.any fun g => g.proto == proto && g.what == what && g.op == slc!"!=" && configured g.other
+
+/-- the components whose number is prescribed, per verifier -/
+def prescribed : List (Str × Str) := [
+  (slc!"fischlin", slc!"A"), (slc!"fischlin", slc!"E"), (slc!"fischlin", slc!"Z"),
+  (slc!"randfischlin", slc!"A"), (slc!"randfischlin", slc!"E"), (slc!"randfischlin", slc!"Z"),
+  (slc!"sigand", slc!"statement"), (slc!"sigand", slc!"commitment"), (slc!"sigand", slc!"response"),
+  (slc!"sigor", slc!"statement"), (slc!"sigor", slc!"commitment"), (slc!"sigor", slc!"E"), (slc!"sigor", slc!"Z"),
+  (slc!"batch", slc!"Xs")]
+
+/-- every prescribed component count is compared against the verifier's configuration in the
+regenerated source facts (complete finite table) -/
+theorem verifiers_compare_counts_with_configuration :
+    (prescribed.all fun pw => hasCountGuard guards pw.1 pw.2) = true := by decide
+
+-- non-vacuity: the predicate is false on the table of a verifier that only compares the components
+-- with each other (the shape of the seeded defect)
+example : hasCountGuard [{ proto := slc!"fischlin", what := slc!"E", op := slc!"!=", other := slc!"len.A" }]
+    (slc!"fischlin") (slc!"E") = false := by decide
+
+end source
+
 /-! ### Range-type proofs (Paillier range / LPDL / modulus, CGGMP21 enc/affg/dec/fac/blummod/prm)
 
 Their verification equations are not Maurer instances; only the n-th-root proof (`nthroot`) is, and
@@ -471,6 +615,43 @@ example : ∃ (chal : Nat × Nat × Nat → Nat) (S : Set (Nat × Nat × Nat)), 
 -- an accepted Fiat–Shamir proof under that oracle (so `fs_context_binding` is not vacuous)
 example : fsVerify (fun t : Nat × Nat × Nat => t.1 + 10 * t.2.1 + 100 * t.2.2) (fun h x a => (h, x, a))
     (fun _ _ _ _ => true) 1 2 (3, 321, ()) = true := by decide
+
+-- a witness-free simulated Schnorr transcript (x = 3·5, e = 4, z = 6 ⇒ a = 3·6 − 4·(3·5)) verifies as a
+-- sigma transcript, and as a Fiat–Shamir proof only under an oracle that returns 4 on its frame
+example : (schnorr (Grp.ofGroup G7) 7 (Multiplicative.ofAdd 3)).verify (Multiplicative.ofAdd (3 * 5))
+    ((schnorr (Grp.ofGroup G7) 7 (Multiplicative.ofAdd 3)).simulate (Multiplicative.ofAdd (3 * 5)) 4 6) 4 6 = true := by decide
+
+example : fsVerify (fun _ : Unit => 4) (fun (_ : Unit) (_ _ : G7) => ()) (schnorr (Grp.ofGroup G7) 7 (Multiplicative.ofAdd 3)).verify ()
+    (Multiplicative.ofAdd (3 * 5))
+    ((schnorr (Grp.ofGroup G7) 7 (Multiplicative.ofAdd 3)).simulate (Multiplicative.ofAdd (3 * 5)) 4 6, 4, 6) = true := by decide
+
+example : fsVerify (fun _ : Unit => 5) (fun (_ : Unit) (_ _ : G7) => ()) (schnorr (Grp.ofGroup G7) 7 (Multiplicative.ofAdd 3)).verify ()
+    (Multiplicative.ofAdd (3 * 5))
+    ((schnorr (Grp.ofGroup G7) 7 (Multiplicative.ofAdd 3)).simulate (Multiplicative.ofAdd (3 * 5)) 4 6, 4, 6) = false := by decide
+
+-- Fischlin: a single repetition that meets its target and verifies is accepted by a verifier
+-- specified with ρ = 1 and rejected by the one specified with ρ = 16 (the seeded-defect shape);
+-- two repetitions are accepted for ρ = 2 (so `fischlin_verify_structure` is not vacuous)
+example : fischlinVerify 1 (fun (_ _ : Unit) (_ : List Nat) => ()) (fun _ _ _ _ => true) (fun _ _ _ _ => true) () ()
+    [(1, 2, 3)] = true := by decide
+example : fischlinVerify 16 (fun (_ _ : Unit) (_ : List Nat) => ()) (fun _ _ _ _ => true) (fun _ _ _ _ => true) () ()
+    [(1, 2, 3)] = false := by decide
+example : fischlinVerify 2 (fun (_ _ : Unit) (as : List Nat) => as.sum) (fun c i e _ => (c + i + e) % 2 == 1)
+    (fun _ a e z => a + e == z) () () [(1, 4, 5), (2, 3, 5)] = true := by decide
+
+example : fischlinSpec false 2 = (16, 8, 13) := by decide
+example : fischlinSpec true 2 = (32, 4, 9) := by decide
+example : fischlinSpec false 5 = (16, 10, 15) := by decide
+example : randFischlinSpec 128 8 = (16, 56) := by decide
+
+-- AND / OR / batch configured for 3 branches: two-branch transcripts that verify branch by branch
+-- are rejected, three-branch ones accepted
+example : andVerify (fun (x a e z : Nat) => x + a + e == z) [1, 2] [3, 4] 5 [9, 11] = true := by decide
+example : andVerifyN 3 (fun (x a e z : Nat) => x + a + e == z) [1, 2] [3, 4] 5 [9, 11] = false := by decide
+example : andVerifyN 3 (fun (x a e z : Nat) => x + a + e == z) [1, 2, 0] [3, 4, 0] 5 [9, 11, 5] = true := by decide
+example : orVerifyN 2 (fun (x a e z : Nat) => x + a + e == z) [1, 2] [3, 4] (6 ^^^ 1) [6, 1] [10, 7] = true := by decide
+example : orVerifyN 2 (fun (x a e z : Nat) => x + a + e == z) [1, 2] [3, 4] 5 [6, 1] [10, 7] = false := by decide
+example : orVerifyN 3 (fun (x a e z : Nat) => x + a + e == z) [1, 2] [3, 4] (6 ^^^ 1) [6, 1] [10, 7] = false := by decide
 
 -- ZK compiler: a binding commitment (`c = e`), and an accepted opening
 example : zkRound4 (fun (_ : Unit) (c e : Nat) (_ : Unit) => c == e) (fun e => e + 1) () 5 5 () = some 6 := by decide
